@@ -520,8 +520,13 @@ func (lr *limitReader) Read(p []byte) (int, error) {
 	}
 	n, err := lr.r.Read(p)
 	lr.n -= int64(n)
-	if lr.n < 0 {
+	if lr.n <= 0 {
 		lr.n = 0
+		// The byte past the limit has been read, the message is too big
+		// even if err already reports its end.
+		err := fmt.Errorf("read limited at %v bytes", lr.limit.Load())
+		lr.c.writeError(StatusMessageTooBig, err)
+		return n, err
 	}
 	return n, err
 }
